@@ -364,7 +364,7 @@ func Merge(files [][]byte, p *MergePlan) (init, media []byte, err error) {
 	first := src[p.TrakOrder[0]]
 	moov := &mut.E{Type: "moov", Container: true}
 	mvex := &mut.E{Type: "mvex", Container: true}
-	var traks, psshs, others []*mut.E
+	var traks, psshs, tail []*mut.E
 	maxID := uint32(0)
 	for _, id := range p.TrackIDs {
 		if id > maxID {
@@ -398,10 +398,17 @@ func Merge(files [][]byte, p *MergePlan) (init, media []byte, err error) {
 			switch c.Type {
 			case "mvhd", "trak", "mvex":
 			case "pssh":
-				psshs = append(psshs, c)
+				// the first trak's source keeps its pssh boxes among its other extra boxes, in the source's
+				// order (a left-over pssh of the clear input may be followed by a vendor box, behind which
+				// InitProtect has appended its own)
+				if i == p.TrakOrder[0] {
+					tail = append(tail, c)
+				} else {
+					psshs = append(psshs, c)
+				}
 			default:
 				if i == p.TrakOrder[0] {
-					others = append(others, c)
+					tail = append(tail, c)
 				}
 			}
 		}
@@ -425,7 +432,7 @@ func Merge(files [][]byte, p *MergePlan) (init, media []byte, err error) {
 	if !p.MvexFirst {
 		moov.Children = append(moov.Children, mvex)
 	}
-	moov.Children = append(moov.Children, others...)
+	moov.Children = append(moov.Children, tail...)
 	moov.Children = append(moov.Children, psshs...)
 	var top []*mut.E
 	if first.ftyp != nil {
